@@ -2,6 +2,7 @@ package c14
 
 import (
 	"fmt"
+	"os"
 	"sort"
 	"strings"
 	"testing"
@@ -36,6 +37,7 @@ type seqEnv struct {
 	salt int64
 	log  []string
 
+	timing     string
 	syncing    bool
 	blocks     int
 	promotions int
@@ -142,7 +144,7 @@ func (e *seqEnv) dense(on *sim.Replica) (tx *types.Transaction, gap bool, kind s
 	s := on.ReadState()
 	sender := e.rich[rapid.IntRange(0, len(e.rich)-1).Draw(t, "sender")]
 	epoch := s.State.Epoch()
-	kind = rapid.SampledFrom([]string{"next", "next", "next", "next", "gap", "gap", "conflict", "stale", "future-epoch", "past-epoch"}).Draw(t, "nonceKind")
+	kind = rapid.SampledFrom([]string{"next", "next", "next", "next", "gap", "gap", "gap", "conflict", "stale", "future-epoch", "past-epoch"}).Draw(t, "nonceKind")
 	if kind == "future-epoch" {
 		epoch++
 	}
@@ -288,6 +290,54 @@ func (e *seqEnv) actBurst(t *rapid.T) {
 	e.note("burst of %d from %s nonces %d.. heavy=%v shuffled=%v -> err=%v admitted=%d", n, sender, next, heavy, shuffled, err, admitted)
 }
 
+// heavyBurst: every well-funded sender submits a run of heavy transactions in nonce order, so that
+// what is ready exceeds the block gas cap (before upgrade 11 a payload is at most 3 KiB: ~97 such
+// transactions fill a block; after it a few 100-180 KiB payloads do).
+func (e *seqEnv) actHeavyBurst(t *rapid.T) {
+	e.t = t
+	s := e.r.ReadState()
+	epoch := s.State.Epoch()
+	big := e.r.Cfg.Consensus.EnableUpgrade11
+	total, admitted := 0, 0
+	for _, sender := range e.rich {
+		n := rapid.IntRange(0, 34).Draw(t, "heavyRun")
+		if big {
+			n = rapid.IntRange(0, 4).Draw(t, "heavyRunBig")
+		}
+		if n == 0 {
+			continue
+		}
+		base := effNonce(s, sender.Addr)
+		present := poolNonces(e.r, sender.Addr, epoch)
+		next := base + 1
+		for len(present[next]) > 0 {
+			next++
+		}
+		to := e.w.Actors[(sender.Idx+1)%len(e.w.Actors)].Addr
+		var batch []*types.Transaction
+		for i := 0; i < n; i++ {
+			e.salt++
+			payload := 3 * 1024
+			if big {
+				payload = rapid.SampledFrom([]int{100 * 1024, 180 * 1024}).Draw(t, "bigPayload")
+			}
+			batch = append(batch, signSend(s, sender, to, epoch, next+uint32(i), payload, e.salt, 12))
+		}
+		e.r.Pool.AddExternalTxs(validation.InboundTx, batch...)
+		for _, tx := range batch {
+			total++
+			if e.r.Pool.GetTx(tx.Hash()) != nil {
+				e.live[tx.Hash()] = &entry{tx: tx, sender: sender.Addr, how: "heavy-burst"}
+				admitted++
+			}
+		}
+	}
+	e.counts["submit.batch"]++
+	e.counts["admit.heavy_burst"] += admitted
+	e.counts["refuse.heavy_burst"] += total - admitted
+	e.note("heavy burst: %d txs over %d senders, admitted=%d", total, len(e.rich), admitted)
+}
+
 func (e *seqEnv) actGen(t *rapid.T) {
 	e.t = t
 	s := e.r.ReadState()
@@ -320,7 +370,7 @@ func (e *seqEnv) actForeignTx(t *rapid.T) {
 }
 
 func (e *seqEnv) actStartSync(t *rapid.T) {
-	if e.syncing {
+	if e.syncing || rapid.IntRange(0, 2).Draw(t, "reallySync") != 0 {
 		return
 	}
 	e.r.Chain.StartSync()
@@ -361,8 +411,8 @@ func (e *seqEnv) block(t *rapid.T, by *sim.Replica, empty bool) {
 	if inCeremony {
 		jumpOdds = 3
 	}
-	jump := rapid.IntRange(1, jumpOdds).Draw(t, "jumpToBoundary") == 1
-	advanceClock(w, e.r, jump, rapid.IntRange(0, 5).Draw(t, "pastBoundary"), rapid.IntRange(10, 45).Draw(t, "dt"))
+	jump := rapid.IntRange(1, jumpOdds).Draw(t, "jumpToBoundary") == 1 && (e.timing != "far" || inCeremony)
+	advanceClock(w, e.r, e.r.ReadState(), jump, rapid.IntRange(0, 5).Draw(t, "pastBoundary"), rapid.IntRange(10, 45).Draw(t, "dt"))
 	var blk *types.Block
 	who := "empty"
 	if !empty && by.CanPropose() {
@@ -501,8 +551,11 @@ func (e *seqEnv) invariant(t *rapid.T) {
 }
 
 func TestSequentialModel(t *testing.T) {
+	if os.Getenv("C14_DEV_ONLY") == "conc" { // development switch for sensitivity runs of the concurrent test
+		t.Skip("C14_DEV_ONLY=conc")
+	}
 	rapid.Check(t, func(t *rapid.T) {
-		p := sim.GenParams(t, 4, 8)
+		p := sim.GenParams(t, 5, 8)
 		timing := rapid.SampledFrom([]string{"far", "far", "near", "near", "soon"}).Draw(t, "ceremonyTiming")
 		switch timing {
 		case "far":
@@ -512,8 +565,8 @@ func TestSequentialModel(t *testing.T) {
 		case "soon":
 			p.CeremonyIn = 90
 		}
-		// three well-funded senders for the dense nonce sequences
-		nRich := 3
+		// four well-funded senders for the dense nonce sequences
+		nRich := 4
 		for i := 0; i < nRich; i++ {
 			p.Balances[i] = sim.Dna(2000000)
 		}
@@ -522,7 +575,7 @@ func TestSequentialModel(t *testing.T) {
 		if err != nil {
 			t.Fatalf("replica: %v", err)
 		}
-		e := &seqEnv{t: t, w: w, r: r, live: map[common.Hash]*entry{}, counts: map[string]int{}, periods: map[string]bool{}}
+		e := &seqEnv{t: t, w: w, r: r, timing: timing, live: map[common.Hash]*entry{}, counts: map[string]int{}, periods: map[string]bool{}}
 		for i := 0; i < nRich; i++ {
 			e.rich = append(e.rich, w.Actors[i])
 		}
@@ -560,6 +613,7 @@ func TestSequentialModel(t *testing.T) {
 			"gen":          e.actGen,
 			"gen2":         e.actGen,
 			"burst":        e.actBurst,
+			"heavyBurst":   e.actHeavyBurst,
 			"resubmit":     e.actResubmit,
 			"block":        e.actBlock,
 			"block2":       e.actBlock,
